@@ -57,7 +57,7 @@ func chanFromField(v ssa.Value, typ, field string) bool {
 }
 
 func runC09(c *Ctx) {
-	c.rule("C09-R6", "PAIR: every Lock/RLock in pkg/interpreter (Future, combinators) and pkg/vm is released on every path to a return: an awaiter can never block on a mutex a settled future still holds")
+	c.rule("C09-R6", "PAIR: every Lock/RLock in pkg/interpreter (Future, combinators) and pkg/vm is released on every path to a return: an awaiter can never block on a mutex a settled future still holds; REACQ: no method calls, while it holds its receiver's mutex, a method of the same receiver that acquires that mutex again (sync mutexes are not re-entrant; a second RLock blocks once a writer waits)")
 	c.Sites["C09-R6#acquire-sites"] = lockReleaseAudit(c, "C09-R6", []string{interpPkg, vmPkg})
 	c.floor("C09-R6", 8)
 	// ---- R1 settle once
